@@ -151,8 +151,8 @@ Section OverLsm.
     exist _ (raw_put cfg k v (proj1_sig s)) (proj1 (raw_put_spec k v _ (proj2_sig s))).
   Definition lsm_del (k : bytes) (s : lsm_st) : lsm_st :=
     exist _ (raw_del cfg k (proj1_sig s)) (proj1 (raw_del_spec k _ (proj2_sig s))).
-  Definition lsm_scan (p : bytes) (s : lsm_st) : kvlist * lsm_st :=
-    (fst (raw_scan cfg p (proj1_sig s)),
+  Definition lsm_scan (p : bytes) (s : lsm_st) : option kvlist * lsm_st :=
+    (Some (fst (raw_scan cfg p (proj1_sig s))),
      exist _ (snd (raw_scan cfg p (proj1_sig s))) (proj1 (proj2 (raw_scan_spec p _ (proj2_sig s))))).
   Definition lsm_restore (cur saved : lsm_st) : lsm_st :=
     exist _ (raw_restore reopen (proj1_sig cur) (proj1_sig saved)) (proj1 (Hreopen _ (proj2_sig saved))).
@@ -171,14 +171,14 @@ Section OverLsm.
   Lemma lsm_refines_sorted_map :
     (forall k v s, lsm_contents (kv_put lsm_kv k v s) = StateStore.sm_put k v (lsm_contents s)) /\
     (forall k s, lsm_contents (kv_del lsm_kv k s) = StateStore.sm_del k (lsm_contents s)) /\
-    (forall p s, fst (kv_scan lsm_kv p s) = StateStore.sm_scan p (lsm_contents s) /\
+    (forall p s, fst (kv_scan lsm_kv p s) = Some (StateStore.sm_scan p (lsm_contents s)) /\
                  lsm_contents (snd (kv_scan lsm_kv p s)) = lsm_contents s) /\
     (forall cur s, lsm_contents (kv_restore lsm_kv cur s) = lsm_contents s).
   Proof.
     unfold lsm_contents. repeat split.
     - intros k v [x Hx]. cbn. apply raw_put_spec. exact Hx.
     - intros k [x Hx]. cbn. apply raw_del_spec. exact Hx.
-    - destruct s as [x Hx]. cbn. apply raw_scan_spec. exact Hx.
+    - destruct s as [x Hx]. cbn. f_equal. apply raw_scan_spec. exact Hx.
     - destruct s as [x Hx]. cbn. apply raw_scan_spec. exact Hx.
     - intros [c Hc] [x Hx]. cbn. apply Hreopen. exact Hx.
   Qed.
@@ -189,8 +189,10 @@ Section OverLsm.
               sy_trace y = o_trace (o_run h o_init steps).
   Proof.
     intros Hh Hs. destruct lsm_refines_sorted_map as (Hp & Hd & Hsc & Hr).
-    apply (refines_per_key_map lsm_kv lsm_contents Hp Hd Hsc Hr kgf accept h steps (lsm_init sc)); try assumption.
-    unfold lsm_contents, lsm_init. cbn. apply C07_Refine.absm_init. exact Hcfg.
+    apply (refines_per_key_map lsm_kv lsm_contents Hp Hd); try assumption.
+    - intros p s. destruct (Hsc p s) as [E1 E2]. split; [|exact E2]. rewrite E1. intros l [= <-]. reflexivity.
+    - intros p s. destruct (Hsc p s) as [E1 _]. rewrite E1. discriminate.
+    - unfold lsm_contents, lsm_init. cbn. apply C07_Refine.absm_init. exact Hcfg.
   Qed.
 End OverLsm.
 
